@@ -337,6 +337,7 @@ def cfg(max_len):
 def run(ctx):
     st = State()
     pt = install(ctx, st)
+    ctx.enable_disturb(pt, 0.01)     # other legitimate library calls interleaved between cases (vf.gen.disturb)
     small, big = cfg(9), cfg(25)
     for i in range(ctx.n(5000, 100000)):
         heavy = i % 4 != 0
